@@ -404,3 +404,48 @@ func ParseBounds(s string) map[string]int {
 	}
 	return m
 }
+
+// RunConcrete executes one concrete assignment in the interpreter and natively and prints both.
+func RunConcrete(h *Harness, opt *Options, spec string) int {
+	l, err := loadPkg(opt, h.Pkg)
+	if err != nil {
+		fmt.Println(err)
+		return 2
+	}
+	fn := l.prog.FindFunc(l.pkgPath, h.Fn)
+	cfg := interp.DefaultConfig()
+	cfg.TraceCalls, cfg.TraceInstr = opt.TraceCalls, opt.TraceInstr
+	cfg.Concrete = sym.Model{}
+	cfg.ConcreteChoices = map[string]int{}
+	cfg.Bounds = h.Bounds
+	nc := NativeCase{Harness: h.Fn, Vals: map[string]string{}, Choices: map[string]int{}, Bounds: h.Bounds}
+	for _, kv := range strings.Fields(strings.ReplaceAll(spec, ",", " ")) {
+		i := strings.IndexByte(kv, ':')
+		if i < 0 {
+			i = strings.IndexByte(kv, '=')
+		}
+		if i < 0 {
+			continue
+		}
+		v, _ := strconv.ParseUint(kv[i+1:], 0, 64)
+		cfg.Concrete[kv[:i]] = v
+		cfg.ConcreteChoices[kv[:i]] = int(v)
+		nc.Vals[kv[:i]] = strconv.FormatUint(v, 10)
+		nc.Choices[kv[:i]] = int(v)
+	}
+	rr := interp.Run(l.prog, fn, cfg, 1, 1)
+	fmt.Printf("engine: paths=%d ok=%d panic=%d unsupported=%v errors=%v\n", rr.Stats.Paths, rr.Stats.PathsOK, rr.Stats.PathsPanic, rr.Stats.Unsupported, rr.Errors)
+	for _, s := range rr.Samples {
+		fmt.Printf("engine obs: %v\n", s.Observed)
+	}
+	for _, v := range rr.Violations {
+		fmt.Printf("engine violation: %s %s\n", v.Label, v.Msg)
+	}
+	outs, err := NativeReplay(opt, h.Pkg, l.ov, []NativeCase{nc})
+	if err != nil {
+		fmt.Println("native:", err)
+		return 2
+	}
+	fmt.Printf("native: %+v\n", outs[0])
+	return 0
+}
